@@ -636,6 +636,13 @@ void ArrayManager::processArrayDeclaration(Variable &var, const ASTNode *node) {
                                     static_cast<long long>(coerced_value));
                                 coerced_value = 0;
                             }
+                            // 要素代入と同じ型範囲チェック（ポインタ配列はスキップ）
+                            if (!node->is_pointer && interpreter_) {
+                                interpreter_->get_type_manager()
+                                    ->check_type_range(base_type, coerced_value,
+                                                       resolved_name,
+                                                       var.is_unsigned);
+                            }
                             numeric_value =
                                 static_cast<long double>(coerced_value);
                         }
@@ -1317,21 +1324,28 @@ void ArrayManager::processArrayLiteralRecursive(
 
             if (!is_floating_type(base_type)) {
                 int64_t coerced_value = static_cast<int64_t>(numeric_value);
-                if (var.is_unsigned && coerced_value < 0) {
-                    std::string resolved_name = "<anonymous array>";
-                    if (interpreter_) {
-                        std::string candidate =
-                            interpreter_->find_variable_name(&var);
-                        if (!candidate.empty()) {
-                            resolved_name = candidate;
-                        }
+                std::string resolved_name = "<anonymous array>";
+                if (interpreter_) {
+                    std::string candidate =
+                        interpreter_->find_variable_name(&var);
+                    if (!candidate.empty()) {
+                        resolved_name = candidate;
                     }
+                }
+                if (var.is_unsigned && coerced_value < 0) {
                     DEBUG_WARN(VARIABLE,
                                "Unsigned array %s literal element negative "
                                "(%lld); clamping to 0",
                                resolved_name.c_str(),
                                static_cast<long long>(coerced_value));
                     coerced_value = 0;
+                }
+                // 要素代入と同じ型範囲チェック（ポインタ配列はスキップ）
+                if (base_type != TYPE_POINTER && !var.is_pointer &&
+                    interpreter_) {
+                    interpreter_->get_type_manager()->check_type_range(
+                        base_type, coerced_value, resolved_name,
+                        var.is_unsigned);
                 }
                 numeric_value = static_cast<long double>(coerced_value);
             }
